@@ -364,7 +364,7 @@ func init() {
 	})
 	durOracle := func(in *Interp, fn *ssa.Function, a []Value) Value {
 		in.ndSrc++
-		t := in.newNondet("int", "time.duration", SInt)
+		t := in.newNondet("oracle", "time.duration", SInt)
 		in.addPC(in.tb.Le(in.tb.Int(0), t))
 		in.addPC(in.tb.Le(t, in.tb.Int(1<<40)))
 		return t
@@ -488,6 +488,8 @@ func harnessIntrinsic(fn *ssa.Function) intrinsicFn {
 			t, ok := a[0].(*Term)
 			return in.tb.Bool(ok && t.IsConst())
 		}
+	case "vRandUnscripted":
+		return func(in *Interp, fn *ssa.Function, a []Value) Value { return nil }
 	case "vRealModel":
 		return func(in *Interp, fn *ssa.Function, a []Value) Value { return in.tb.Bool(!in.tb.fmode) }
 	case "vSymbolic":
